@@ -31,16 +31,25 @@ pub open spec fn h_eq<T: PartialEq>() -> bool {
     &&& forall|a: T, b: T| #[trigger] a.eq_spec(&b) == (a == b)
 }
 
-/// H_total for the four binary operators: no operation traps, results are the spec terms.
-pub open spec fn h_ops<T: Add<Output = T> + Sub<Output = T> + Mul<Output = T> + Div<Output = T>>() -> bool {
+/// H_total for the binary operators: no operation traps, results are the spec terms.
+pub open spec fn h_add<T: Add<Output = T>>() -> bool {
     &&& forall|a: T, b: T| #[trigger] a.add_req(b)
-    &&& forall|a: T, b: T| #[trigger] a.sub_req(b)
-    &&& forall|a: T, b: T| #[trigger] a.mul_req(b)
-    &&& forall|a: T, b: T| #[trigger] a.div_req(b)
     &&& <T as AddSpec<T>>::obeys_add_spec()
+}
+pub open spec fn h_sub<T: Sub<Output = T>>() -> bool {
+    &&& forall|a: T, b: T| #[trigger] a.sub_req(b)
     &&& <T as SubSpec<T>>::obeys_sub_spec()
+}
+pub open spec fn h_mul<T: Mul<Output = T>>() -> bool {
+    &&& forall|a: T, b: T| #[trigger] a.mul_req(b)
     &&& <T as MulSpec<T>>::obeys_mul_spec()
+}
+pub open spec fn h_div<T: Div<Output = T>>() -> bool {
+    &&& forall|a: T, b: T| #[trigger] a.div_req(b)
     &&& <T as DivSpec<T>>::obeys_div_spec()
+}
+pub open spec fn h_ops<T: Add<Output = T> + Sub<Output = T> + Mul<Output = T> + Div<Output = T>>() -> bool {
+    h_add::<T>() && h_sub::<T>() && h_mul::<T>() && h_div::<T>()
 }
 
 /// Compound assignment equals the binary operator (and never traps).
